@@ -75,11 +75,20 @@ def signature(c, f):
     return _C01_SIGNATURE(c, f)
 
 
+# the later comparators of a chain stay inside the deferred thunk (short-circuit): the thunk's own parameters must not capture the program's names,
+# whatever they are called
+EXTRA = [
+    {"src": "x = 5\ny = 2\nX = 7\nY = 1\nu = (1 < 3 < x)\nv = (y < 3 > y)\nw = [(0 < 9 < x) for x in range(2)]\nz = (Y < 3 < X, 0 < Y < X < 9)\n"
+            "def f1(x, y=1):\n    return (y < 4 < x, 0 < y < x < 9, t(1, 1) < t(2, 2) < x)\nr = f1(7)\n", "events": ["before_compare"], "guards": True},
+    {"src": "x = 5\ny = 2\nu = (1 < 3 < x) + (x - 1) * (y + x) - y\nv = (lambda x, y: (x + y, 1 < y < x))(y, x)\n", "events": ["before_compare", "before_binop"], "guards": False},
+]
+
+
 def run(ctx, model_ok):
     C01_sig = C01.signature
     C01.signature = signature
     try:
-        r = C01.run(ctx, model_ok, deferred=True, only_deferred=(ctx.rng.random() < 2), n_quick=100, extra_cases=[], adversarial=False)
+        r = C01.run(ctx, model_ok, deferred=True, only_deferred=(ctx.rng.random() < 2), n_quick=100, extra_cases=[dict(x) for x in EXTRA], adversarial=False)
     finally:
         C01.signature = C01_sig
     # override templates
